@@ -295,6 +295,49 @@ def run_arch(ck, arch, prop):
                         break
             elif len(ck.samples) < 4 and i % 997 == 0:
                 ck.sample({"arch": arch, "source": t, "bytes": r.bytes.hex(), "decoded": dec_out.get(i)})
+    # ---------------------------------------------------------------- O: position in the image and spelling through @string do not matter
+    # (a) the same instruction with a later-defined operand behind more than 64 KiB of image (several banks): the bytes it
+    #     contributes, and the banks before it, are what they are in a small image
+    # (b) the mnemonic written back as text by @string and parsed again (`@parse @string { mn " operands" }`)
+    extra, emeta = [], []
+    pick = [f for f in census_forms if asmk.NUMRE.search(f) and f.split()[0] not in ("bit", "res", "set", "rst", "im") and f.split()[0] not in REL_MN]
+    for f in rng.sample(pick, min(len(pick), 60 if thorough else 14)):
+        m = asmk.NUMRE.search(f)
+        g2 = f[:m.start()] + "lat1" + f[m.end():]
+        small = "@org $100\n %s\n@defn lat1, %s\n" % (g2, m.group(0))
+        big = "@org 0\n@ds $8000, $e5\n@org 0\n@ds $8000, $e6\n@org 0\n@ds 7, $e7\n@org $100\n %s\n@defn lat1, %s\n" % (g2, m.group(0))
+        extra += [small, big]; emeta.append(("big", f))
+    seen_mn = set()
+    for f in census_forms:
+        mn = f.split()[0]
+        if mn in seen_mn or "'" in f:
+            continue
+        seen_mn.add(mn)
+        rest = f[len(mn):]
+        if mn in REL_MN:
+            # a target within reach of $100
+            m2 = list(asmk.NUMRE.finditer(f))[-1]
+            f = f[:m2.start()] + "$110" + f[m2.end():]
+            rest = f[len(mn):]
+        plain = "@org $100\n %s\n" % f
+        spelt = '@org $100\n@parse @string { %s "%s" }\n' % (mn, rest)
+        extra += [plain, spelt]; emeta.append(("str", f))
+    eres = [AsmResult(r) for r in run_cases(harness, [asm_case(arch, text=t) for t in extra])]
+    ck.evaluations += len(extra)
+    for j, (kind, f) in enumerate(emeta):
+        a, b = eres[2 * j], eres[2 * j + 1]
+        if kind == "big":
+            want = None if not a.ok else b"\xe5" * 0x8000 + b"\xe6" * 0x8000 + b"\xe7" * 7 + a.bytes
+            if a.ok != b.ok or (a.ok and b.bytes != want):
+                k = next((i for i in range(min(len(b.bytes or b""), len(want or b""))) if (b.bytes or b"")[i] != (want or b"")[i]), None)
+                ck.violation("%s: `%s` with its operand defined later, placed behind 64 KiB of image: %s (first difference at image offset %s), in a small image %s" % (
+                    arch, f, (b.canon()[:40] + "..." if b.ok else b.canon()), k, a.canon()),
+                    {"mode": "asm", "arch": arch, "source": extra[2 * j + 1], "harness_case": asm_case(arch, text=extra[2 * j + 1]), "expected": "the banks unchanged, then " + a.canon()})
+                break
+        elif a.canon() != b.canon():
+            ck.violation("%s: `%s` assembles to %s, the same with the mnemonic written back by @string and parsed again to %s" % (arch, f, a.canon(), b.canon()),
+                         {"mode": "asm", "arch": arch, "source": extra[2 * j + 1], "harness_case": asm_case(arch, text=extra[2 * j + 1]), "expected": a.canon()})
+            break
     # ---------------------------------------------------------------- O: an operand written as an expression is accepted exactly when the number is
     by_src = {}
     for j, sw in enumerate(sweeps):
